@@ -66,6 +66,8 @@ Inductive need :=
 | NDone (t : tid)
 | NDoneAux (k : auxsel) (f : fid)
 | NStatus (t : tid) (s : status)
+| NUpdated (v : nat) (mk : nat)       (* if share is updated [in frame f] [by m] : mark mk of share v *)
+| NChanged (v : nat) (mk : nat)
 | NNot (n : need).
 
 Inductive act :=
@@ -76,7 +78,9 @@ Inductive act :=
 | ABid (c : ctl) (ts : list tid) (p : option O)
 | AFiat (c : ctl) (t : tid)
 | ADone (ts : list tid)
-| ADeactivize (aux : tid).
+| ADeactivize (aux : tid)
+| AMarkU (mk : nat) (transit : bool)   (* MarkerUpdate on mark mk; transit sub-context sets .used *)
+| AMarkC (v : nat) (mk : nat).         (* MarkerChange: snapshot of share v into mark mk *)
 
 Inductive pact :=
 | PAct (a : act)
@@ -137,6 +141,19 @@ Definition nfr (t : tid) : nat := length (fm_frames (getm t)).
 Definition head (t : tid) (f : fid) : list fid := rev (ups t (nfr t) f).
 Definition outline (t : tid) (f : fid) : list fid := head t f ++ downs t (nfr t) f.
 
+(* number of marks: one more than the largest mark id mentioned by a need of the program *)
+Fixpoint need_mark (n : need) : nat :=
+  match n with NUpdated _ mk | NChanged _ mk => S mk | NNot n' => need_mark n' | _ => 0 end.
+Definition act_mark (a : act) : nat :=
+  match a with AMarkU mk _ | AMarkC _ mk => S mk | _ => 0 end.
+Definition lmax (l : list nat) : nat := fold_left Nat.max l 0.
+Definition frame_mark (fr : frame) : nat :=
+  lmax (map need_mark (beacts fr) ++ map act_mark (enacts fr) ++
+        flat_map (fun pa => match pa with
+                            | PAct a => [act_mark a]
+                            | PGo ns _ | PAux ns _ => map need_mark ns end) (preacts fr)).
+Definition mark_bound : nat := lmax (flat_map (fun m => map frame_mark (fm_frames m)) (framers P)).
+
 (* ---- dynamic state ---- *)
 Record tstate := {
   st : status;
@@ -161,10 +178,15 @@ Inductive event :=
 | ESegue (t : tid)                                     (* ghost: Framer.segue begins *)
 | ERecur (t : tid) (f : fid).                          (* ghost: Frame.recur begins *)
 
+Record mark := { m_stamp : option O; m_used : option O; m_data : option Z }.
+Definition dmark : mark := {| m_stamp := None; m_used := None; m_data := None |}.
+
 Record world := {
   stamp : O;
   tk : nat;                       (* tick counter *)
   vars : list Z;
+  vstamps : list (option O);      (* stamp of each store share: None until first updated at run time *)
+  marks : list mark;
   tss : list tstate;
   trace : list event;             (* newest first *)
   crashed : option exn;
@@ -187,26 +209,36 @@ Fixpoint upd {A} (l : list A) (i : nat) (x : A) : list A :=
   end.
 
 Definition set_tss (w : world) (l : list tstate) : world :=
-  {| stamp := stamp w; tk := tk w; vars := vars w; tss := l; trace := trace w;
+  {| stamp := stamp w; tk := tk w; vars := vars w; vstamps := vstamps w; marks := marks w; tss := l; trace := trace w;
      crashed := crashed w; nrec := nrec w; crash_at := crash_at w; oof := oof w |}.
 Definition sett (w : world) (t : tid) (s : tstate) : world := set_tss w (upd (tss w) t s).
 Definition emit (w : world) (e : event) : world :=
-  {| stamp := stamp w; tk := tk w; vars := vars w; tss := tss w; trace := e :: trace w;
+  {| stamp := stamp w; tk := tk w; vars := vars w; vstamps := vstamps w; marks := marks w; tss := tss w; trace := e :: trace w;
      crashed := crashed w; nrec := nrec w; crash_at := crash_at w; oof := oof w |}.
 Definition set_vars (w : world) (l : list Z) : world :=
-  {| stamp := stamp w; tk := tk w; vars := l; tss := tss w; trace := trace w;
+  {| stamp := stamp w; tk := tk w; vars := l; vstamps := vstamps w; marks := marks w; tss := tss w; trace := trace w;
      crashed := crashed w; nrec := nrec w; crash_at := crash_at w; oof := oof w |}.
+Definition set_vstamps (w : world) (l : list (option O)) : world :=
+  {| stamp := stamp w; tk := tk w; vars := vars w; vstamps := l; marks := marks w; tss := tss w; trace := trace w;
+     crashed := crashed w; nrec := nrec w; crash_at := crash_at w; oof := oof w |}.
+Definition set_marks (w : world) (l : list mark) : world :=
+  {| stamp := stamp w; tk := tk w; vars := vars w; vstamps := vstamps w; marks := l; tss := tss w; trace := trace w;
+     crashed := crashed w; nrec := nrec w; crash_at := crash_at w; oof := oof w |}.
+(* a store write: value and stamp (Share.update stamps with the store's current time) *)
+Definition write_var (w : world) (v : nat) (z : Z) : world :=
+  set_vstamps (set_vars w (upd (vars w) v z)) (upd (vstamps w) v (Some (stamp w))).
+Definition getmark (w : world) (mk : nat) : mark := nth mk (marks w) dmark.
 Definition set_crashed (w : world) (c : option exn) : world :=
-  {| stamp := stamp w; tk := tk w; vars := vars w; tss := tss w; trace := trace w;
+  {| stamp := stamp w; tk := tk w; vars := vars w; vstamps := vstamps w; marks := marks w; tss := tss w; trace := trace w;
      crashed := c; nrec := nrec w; crash_at := crash_at w; oof := oof w |}.
 Definition set_oof (w : world) : world :=
-  {| stamp := stamp w; tk := tk w; vars := vars w; tss := tss w; trace := trace w;
+  {| stamp := stamp w; tk := tk w; vars := vars w; vstamps := vstamps w; marks := marks w; tss := tss w; trace := trace w;
      crashed := crashed w; nrec := nrec w; crash_at := crash_at w; oof := true |}.
 Definition set_stamp (w : world) (s : O) (k : nat) : world :=
-  {| stamp := s; tk := k; vars := vars w; tss := tss w; trace := trace w;
+  {| stamp := s; tk := k; vars := vars w; vstamps := vstamps w; marks := marks w; tss := tss w; trace := trace w;
      crashed := crashed w; nrec := nrec w; crash_at := crash_at w; oof := oof w |}.
 Definition bump_rec (w : world) : world :=
-  {| stamp := stamp w; tk := tk w; vars := vars w; tss := tss w; trace := trace w;
+  {| stamp := stamp w; tk := tk w; vars := vars w; vstamps := vstamps w; marks := marks w; tss := tss w; trace := trace w;
      crashed := crashed w; nrec := S (nrec w); crash_at := crash_at w; oof := oof w |}.
 
 (* per-tasker field updates *)
@@ -280,8 +312,34 @@ Fixpoint eval_need (me : tid) (w : world) (n : need) : bool :=
       | AuxNamed t => existsb (Nat.eqb t) axs && done (gett w t)
       end
   | NStatus t s => status_eqb (st (gett w t)) s
+  | NUpdated v mk =>       (* needing.NeedUpdate.action *)
+      match nth v (vstamps w) None with
+      | None => false
+      | Some sv =>
+          let m := getmark w mk in
+          match m_stamp m with
+          | None => true
+          | Some ms => tltb O ms sv ||
+                       (teqb O sv ms && negb (match m_used m with Some u => teqb O u ms | None => false end))
+          end
+      end
+  | NChanged v mk =>       (* needing.NeedChange.action on a single-field share *)
+      match m_data (getmark w mk) with
+      | None => true
+      | Some d => negb (Z.eqb d (getv w v))
+      end
   | NNot n' => negb (eval_need me w n')
   end.
+
+(* the transit sub-context acts (tracts) a transition / conditional-aux clause collects from its marker needs *)
+Fixpoint need_tracts (n : need) : list act :=
+  match n with
+  | NUpdated v mk => [AMarkU mk true]
+  | NChanged v mk => [AMarkC v mk]
+  | NNot n' => need_tracts n'
+  | _ => []
+  end.
+Definition tracts_of (ns : list need) : list act := flat_map need_tracts ns.
 
 (* ---- framer-level operations at a given auxiliary depth ---- *)
 Record ops := {
@@ -318,9 +376,9 @@ Definition run_act (sub : ops) (me : tid) (a : act) (w : world) : world :=
       | Some (k, e) => if Nat.eqb k (nrec w) then set_crashed w1 (Some e) else w1
       | None => w1
       end
-  | APut v z => set_vars w (upd (vars w) v z)
-  | AInc v z => set_vars w (upd (vars w) v (getv w v + z)%Z)
-  | ACopy s d => set_vars w (upd (vars w) d (getv w s))
+  | APut v z => write_var w v z
+  | AInc v z => write_var w v (getv w v + z)%Z
+  | ACopy s d => write_var w d (getv w s)
   | ABid c ts p =>
       fold_left (fun w t =>
         let w := match c, p with
@@ -332,6 +390,14 @@ Definition run_act (sub : ops) (me : tid) (a : act) (w : world) : world :=
   | AFiat c t => fst (o_send sub t c w)
   | ADone ts => fold_left (fun w t => modt w t (fun s => ts_set_done s true)) ts w
   | ADeactivize aux => if done (gett w aux) then w else deactivate_aux sub aux w
+  | AMarkU mk transit =>   (* acting.MarkerUpdate.action *)
+      let m := getmark w mk in
+      set_marks w (upd (marks w) mk {| m_stamp := Some (stamp w);
+                                       m_used := if transit then Some (stamp w) else m_used m;
+                                       m_data := m_data m |})
+  | AMarkC v mk =>         (* acting.MarkerChange.action *)
+      let m := getmark w mk in
+      set_marks w (upd (marks w) mk {| m_stamp := m_stamp m; m_used := m_used m; m_data := Some (getv w v) |})
   end).
 
 Definition run_acts (sub : ops) (me : tid) (l : list act) (w : world) : world :=
@@ -421,6 +487,7 @@ Definition transit (sub : ops) (t : tid) (ns : list need) (far : fid) (w : world
   if negb (forallb (eval_need t w) ns) then (w, false) else
   let '(exits, enters, reexens) := ExEn t (actives (gett w t)) far in
   if negb (framer_checkEnter sub t enters exits w) then (w, false) else
+  let w := run_acts sub t (tracts_of ns) w in      (* transit sub-context: re-arm the marks *)
   let w := framer_exit sub t exits w in
   let w := framer_rexit sub t reexens w in
   let w := framer_renter sub t reexens w in
@@ -436,6 +503,7 @@ Definition suspend (sub : ops) (t : tid) (mainf : fid) (ns : list need) (aux : t
     if match main (gett w aux) with Some (mt, m) => negb (Nat.eqb mt t && Nat.eqb m mainf) | None => false end
     then (w, false) else
     if negb (o_checkStart sub aux w) then (w, false) else
+    let w := run_acts sub t (tracts_of ns) w in
     let w := if fm_original (getm aux) then modt w aux (fun s => ts_set_main s (Some (t, mainf))) else w in
     let w := o_enterAll sub aux w in
     let w := guard w (o_recur sub aux) in
@@ -687,7 +755,8 @@ Definition init_tstate (m : framer) : tstate :=
      main := fm_main0 m |}.
 
 Definition init_world (nvars : nat) (ca : option (nat * exn)) : world :=
-  {| stamp := stamp0 P; tk := 0; vars := repeat 0%Z nvars; tss := map init_tstate (framers P);
+  {| stamp := stamp0 P; tk := 0; vars := repeat 0%Z nvars; vstamps := repeat None nvars; marks := repeat dmark mark_bound;
+     tss := map init_tstate (framers P);
      trace := []; crashed := None; nrec := 0; crash_at := ca; oof := false |}.
 
 Definition init_sked (nvars : nat) (ca : option (nat * exn)) : sked :=
@@ -705,9 +774,9 @@ End Kernel.
 
 Arguments NAlways {O}.   Arguments NVar {O} _ _ _.   Arguments NElapsed {O} _ _.
 Arguments NRecurred {O} _ _.   Arguments NDone {O} _.   Arguments NDoneAux {O} _ _.
-Arguments NStatus {O} _ _.   Arguments NNot {O} _.
+Arguments NStatus {O} _ _.   Arguments NNot {O} _.   Arguments NUpdated {O} _ _.   Arguments NChanged {O} _ _.
 Arguments ARec {O} _.   Arguments APut {O} _ _.   Arguments AInc {O} _ _.   Arguments ACopy {O} _ _.
-Arguments ABid {O} _ _ _.   Arguments AFiat {O} _ _.   Arguments ADone {O} _.   Arguments ADeactivize {O} _.
+Arguments ABid {O} _ _ _.   Arguments AFiat {O} _ _.   Arguments ADone {O} _.   Arguments ADeactivize {O} _.   Arguments AMarkU {O} _ _.   Arguments AMarkC {O} _ _.
 Arguments PAct {O} _.   Arguments PGo {O} _ _.   Arguments PAux {O} _ _.
 Arguments ERec {O} _ _.   Arguments ESend {O} _ _ _ _ _ _ _.   Arguments EEnter {O} _ _.
 Arguments EExit {O} _ _.   Arguments ESegue {O} _.   Arguments ERecur {O} _ _.
